@@ -296,6 +296,10 @@ type Hold struct {
 	// Nth (sites "auto.*" only): the hold applies to the Nth (0-based) automatic yield
 	// that the ingestion worker processing the update matched by Match passes.
 	Nth int `json:"nth,omitempty"`
+	// From/To (site "auto.lock" only, To > 0): the hold applies only while the run's
+	// clock is in [From, To); with Nth < 0 it then applies to every acquisition.
+	From Dur `json:"from,omitempty"`
+	To   Dur `json:"to,omitempty"`
 }
 
 // InstOpts are the app.Options the scenario varies.
@@ -370,7 +374,8 @@ type NetPlan struct {
 type Partition struct {
 	From   Dur   `json:"from"`
 	To     Dur   `json:"to"`
-	A      []int `json:"a"` // instance indexes on one side; everyone else on the other
+	A      []int `json:"a"`           // instance indexes on one side; everyone else on the other
+	B      []int `json:"b,omitempty"` // when set, only the links between A and B are cut
 	OneWay bool  `json:"one_way,omitempty"`
 }
 
